@@ -199,6 +199,7 @@ func (c *Client) cmd(expectCode int, format string, args ...interface{}) (int, s
 	}
 	c.Text.StartResponse(id)
 	code, msg, err := c.Text.ReadResponse(expectCode)
+	c.dropIfNoReply(err)
 
 	logMsg = []interface{}{code, msg}
 	if c.authIsActive && code >= 300 && code <= 400 {
@@ -410,8 +411,27 @@ func (d *dataCloser) Close() error {
 	d.c.mutex.Lock()
 	_ = d.WriteCloser.Close()
 	_, _, err := d.c.Text.ReadResponse(250)
+	d.c.dropIfNoReply(err)
 	d.c.mutex.Unlock()
 	return err
+}
+
+// dropIfNoReply closes the connection when waiting for a reply ended without one: the read timed
+// out, failed, or what arrived is not an SMTP reply. The reply may still be on its way and would
+// be taken for the answer to the next command, so the connection cannot be used any further.
+// An unexpected but well-formed reply (a *textproto.Error) leaves the session in step.
+//
+// The caller holds the Client's mutex.
+func (c *Client) dropIfNoReply(err error) {
+	if err == nil {
+		return
+	}
+	var replyErr *textproto.Error
+	if errors.As(err, &replyErr) {
+		return
+	}
+	_ = c.Text.Close()
+	c.isConnected = false
 }
 
 // Write writes data to the underlying WriteCloser while ensuring thread-safety by locking and unlocking a mutex.
